@@ -21,7 +21,7 @@ ENTRY = dict(
             "edited partially before IndexError); `schedule_table`, `schedule_parameter_names` re-prove the name tables read from today's source. The model is tied to the code by an "
             "exhaustive run over all 48x48 aligned pairs x 4 states x day patterns, malformed states/times, non-aligned minutes, and by feeding "
             "SchedulesResponse payloads to a real EcoMAX, editing through its Schedule objects and comparing the queued SetScheduleRequest payload."),
-        level_note="Trusted: Lean kernel; time-string parsing is datetime.strptime's (the model receives its (hour, minute) result or 'unparsable'); model <-> code tie is differential; asyncio dispatch exercised under the virtual loop.",
+        level_note="Time strings (round 8): Model/TimeParse.lean `parseTime` specifies datetime.strptime(s, '%H:%M') on ASCII strings (un-padded spellings included; non-ASCII: declined), validated against CPython exhaustively over all digit strings d:d, d:dd, dd:d, dd:dd; Props/C18Time.lean: `parse_spellings` (all 24x60x4 spellings), `midnight_spellings`, `set_spelled`, `set_exact_str`, `set_error_inert_str`, `set_bad_time`; the harness judges aligned times by VALUE in every spelling. `_get_time_range` / `ScheduleDay.set_state` themselves are NOT translated (nested functions, lru_cache, datetime arithmetic are outside the translator's subset): model <-> code tie for them stays differential. Trusted: Lean kernel; strptime as specified above (the set_state model still receives CPython's (hour, minute) result or 'unparsable'); model <-> code tie is differential; asyncio dispatch exercised under the virtual loop.",
         clauses={
             "set_state changes exactly the slots start..end (end 00:00 = last slot), sets them to the state, keeps 48 slots": "theorem",
             "invalid state / unparsable time / end not after start raises ValueError and changes nothing": "theorem (model) + correspondence (exception class of the implementation)",
@@ -32,7 +32,7 @@ ENTRY = dict(
             "commit() of a Schedule object kept across later responses sends THAT object (its received week + exactly the edits made to it), switch / parameter of the device": "theorem (heap machine: kept_content, handle_commit_then_drain; refines_sys ties it to the lookup-only machine)",
             "40 distinct schedule names, switch/parameter names at positions 2i / 2i+1, 42-byte bitmap": "table",
             "the accepted states and the states that switch a slot on are the source's get_args(ScheduleState) / ON_STATES / OFF_STATES": "table (C18.states_pinned against Generated/ScheduleStates.lean, rewritten by the translator on every run)",
-            "parsing of '%H:%M' strings": "correspondence (strptime trusted)",
+            "parsing of '%H:%M' strings": "specification parseTime (Model/TimeParse.lean) + exhaustive correspondence with datetime.strptime on all digit strings of the four shapes; theorems C18Time.parse_spellings / midnight_spellings / set_spelled",
             "model = ScheduleDay / SchedulesStructure / EcoMAX._add_schedules / Schedule.commit": "correspondence",
             "every schedule a well-formed schedules response carries (any header bytes, any number of entries, the entry at any place) is decoded, in order, and offered by the device for editing and commit": "correspondence (wire layout)",
         },
